@@ -31,6 +31,7 @@ def run(ctx):
     ctx.each(flowalg.duration_rule, ctx, repo, "R05h")
     ctx.each(flowalg.flush_formula_rule, ctx, repo, "R05i")
     ctx.each(r05k, ctx, repo)
+    ctx.each(r05n, ctx, repo)
     ctx.each(flowalg.share_rule, ctx, repo, "R05m")  # a junction inside a duration group passes every keyring row on in full: the share algebra per row
     ctx.each(flowalg.kind_dispatch_rule, ctx, repo, "R05l")
     ctx.each(discretise.snap_tolerance_rule, ctx, repo, "R05j", [("model", _row_count_helper(repo))])
@@ -341,3 +342,44 @@ def r05k(ctx, repo):
             g = branch_guards(enclosing_stmt(adds[0]))
             ok = any(pol and B.equivalent(B.of(t), B.parse_cond("par == '>' or not (self.pars.at[par, 'timed'] == 'y')")) for t, pol in g)
         ctx.check(ok, "R05k", inner, enclosing_stmt(adds[0]) if adds else inner.node, "a connection attaches its group unless it is the timed (flush) outflow", "the attachment test of get_attached_comps is not `par == '>' or self.pars.at[par, 'timed'] != 'y'`", stmt_text="attachment-test")
+
+
+def r05n(ctx, repo):
+    from ..core import boolx as B
+
+    ctx.rule("R05n", "the traversal that decides a junction's duration group looks at the right neighbours: get_attached_comps takes the in-edges of the node and the *source* end of each edge (x[0]) when walking upstream, the out-edges and the *target* end (x[1]) when walking downstream, each with the edge's parameter; it skips edges without a parameter, recurses through junctions (same direction, same accumulator sets), and for every other compartment records the compartment, its duration group when it has one, and the group as an attachment unless the edge is the timed (flush) outflow; it returns the three sets")
+    fi = repo.func("framework", "ProjectFramework._assign_junction_duration_groups")
+    inner = fi.nested.get("get_attached_comps") if hasattr(fi, "nested") else None
+    ctx.require(inner is not None, "R05n: nested function get_attached_comps not found")
+    G, node, direction, comps, groups, att = inner.params[:6]
+    want = {"upstream": ("in_edges", "0"), "downstream": ("out_edges", "1")}
+    for d, (meth, end) in want.items():
+        e = [s_ for s_ in own_nodes(inner.node) if isinstance(s_, ast.Assign) and isinstance(s_.value, ast.Call) and ast.unparse(s_.value.func) == "%s.%s" % (G, meth)]
+        ok = len(e) == 1 and ast.unparse(e[0].value.args[0]) == node and B.equivalent(B.cond(branch_guards(e[0], stop=inner.node)), B.parse_cond("%s == '%s'" % (direction, d)) if d == "upstream" else B.parse_cond("not (%s == 'upstream') and %s == 'downstream'" % (direction, direction)))
+        if ok:
+            blk = e[0]._parent.body if any(e[0] is x for x in e[0]._parent.body) else e[0]._parent.orelse
+            it = [s_ for s_ in blk if isinstance(s_, ast.Assign) and isinstance(s_.value, ast.ListComp) and ast.unparse(s_.value.generators[0].iter) == ast.unparse(e[0].targets[0])]
+            ok = len(it) == 1 and isinstance(it[0].value.elt, ast.Tuple) and len(it[0].value.elt.elts) == 2
+            if ok:
+                v = it[0].value.generators[0].target.id
+                ok = ast.unparse(it[0].value.elt.elts[0]) == "%s[%s]" % (v, end) and ast.unparse(it[0].value.elt.elts[1]) == "%s[2]['par']" % v
+        ctx.check(ok, "R05n", inner, e[0] if e else inner.node, "%s: %s, neighbour = edge end %s, with the edge parameter" % (d, meth, end), "walking %s, get_attached_comps does not take `%s.%s(%s, data=True)` and pair `x[%s]` with `x[2]['par']`: it looks at the wrong neighbours (or at the node itself), so a junction is put into - or left out of - a duration group on the basis of compartments it is not connected to on that side" % (d, G, meth, node, end), stmt_text="traverse:%s" % d)
+    loops = [l for l in own_nodes(inner.node) if isinstance(l, ast.For) and isinstance(l.target, ast.Tuple) and len(l.target.elts) == 2]
+    ctx.require(len(loops) == 1, "R05n: the loop over (compartment, parameter) items was not found")
+    lp = loops[0]
+    c, p = (x.id for x in lp.target.elts)
+    rec = [x for x in ast.walk(lp) if isinstance(x, ast.Call) and ast.unparse(x.func) == inner.node.name]
+    ok = len(rec) == 1 and [ast.unparse(a) for a in rec[0].args] == [G, c, direction, comps, groups, att] and B.equivalent(B.cond(branch_guards(enclosing_stmt(rec[0]), stop=lp)), B.parse_cond("not (%s is None) and self.comps.at[%s, 'is junction'] == 'y'" % (p, c)))
+    ctx.check(ok, "R05n", inner, enclosing_stmt(rec[0]) if rec else lp, "junction neighbours are traversed through (same direction, same sets)", "get_attached_comps does not recurse into junction neighbours with `%s(%s, %s, %s, %s, %s, %s)` exactly for edges that have a parameter and lead to a junction" % (inner.node.name, G, c, direction, comps, groups, att), stmt_text="traverse:recursion")
+    adds = {}
+    for x in ast.walk(lp):
+        if isinstance(x, ast.Call) and isinstance(x.func, ast.Attribute) and x.func.attr == "add" and isinstance(x.func.value, ast.Name):
+            adds[x.func.value.id] = x
+    base = "not (%s is None) and not (self.comps.at[%s, 'is junction'] == 'y')" % (p, c)
+    okc = comps in adds and ast.unparse(adds[comps].args[0]) == c and B.equivalent(B.cond(branch_guards(enclosing_stmt(adds[comps]), stop=lp)), B.parse_cond(base))
+    ctx.check(okc, "R05n", inner, enclosing_stmt(adds[comps]) if comps in adds else lp, "every non-junction neighbour with a parameter is recorded", "the neighbour compartment is not added to `%s` exactly for edges with a parameter that lead to a non-junction" % comps, stmt_text="traverse:comps")
+    gdef = [s_ for s_ in ast.walk(lp) if isinstance(s_, ast.Assign) and isinstance(s_.targets[0], ast.Name) and ast.unparse(s_.value) == "self.comps.at[%s, 'duration group']" % c]
+    okg = len(gdef) == 1 and groups in adds and ast.unparse(adds[groups].args[0]) == gdef[0].targets[0].id and B.equivalent(B.cond(branch_guards(enclosing_stmt(adds[groups]), stop=lp)), B.parse_cond(base + " and not (%s is None)" % gdef[0].targets[0].id))
+    ctx.check(okg, "R05n", inner, enclosing_stmt(adds[groups]) if groups in adds else lp, "the neighbour's duration group is recorded when it has one", "the duration group of the neighbour (`self.comps.at[%s, 'duration group']`) is not added to `%s` exactly when it is not None" % (c, groups), stmt_text="traverse:groups")
+    rets = [r for r in own_nodes(inner.node) if isinstance(r, ast.Return)]
+    ctx.check(len(rets) == 1 and ast.unparse(rets[0].value) in ("(%s, %s, %s)" % (comps, groups, att), "%s, %s, %s" % (comps, groups, att)), "R05n", inner, rets[0] if rets else inner.node, "returns (comps, groups, attachments)", "get_attached_comps does not return (%s, %s, %s)" % (comps, groups, att), stmt_text="traverse:return")
